@@ -90,6 +90,26 @@ func init() {
 			op["urltable"].(map[string]any)[start] = urlRecord(u)
 			op["urltable"].(map[string]any)[u.String()] = urlRecord(u)
 		}
+		/* further listings harvested first in the same process: entries they share with the
+		   main listing must still be judged by the main listing's own filter */
+		pre := []any{}
+		for _, raw := range L(op, "before") {
+			u := substitute(raw.(string), s.hosts, opid)
+			pre = append(pre, u)
+			if pu, err := url.Parse(u); err == nil {
+				op["urltable"].(map[string]any)[u] = urlRecord(pu)
+				op["urltable"].(map[string]any)[pu.String()] = urlRecord(pu)
+			}
+			it := pub.New(u, nil)
+			if t, ok := it.(pub.Tangible); ok {
+				if c := t.Children(); c != nil {
+					c.Harvest(10, 0)
+				}
+			} else if c, ok := it.(*pub.Collection); ok {
+				c.Harvest(10, 0)
+			}
+		}
+		op["before_sub"] = pre
 		item := pub.New(start, nil)
 		res := map[string]any{"item": pub.VerifDump(item)}
 		if t, ok := item.(pub.Tangible); ok {
@@ -180,6 +200,10 @@ func (g *worldGen) refTo(fromHost int, url string, fields map[string]any) any {
 		if g.r.Intn(2) == 0 {
 			delete(stub, "type")
 		}
+		if g.r.Intn(3) == 0 {
+			/* a stub naming the URL the object is really served at (its document may claim another id) */
+			stub["id"] = url
+		}
 		return stub
 	}
 	g.n++
@@ -199,7 +223,10 @@ func genPubWorld(r *rand.Rand, n int, emit func(Op)) {
 		forgedAliceURL := g.serve(evil, "forged-alice", map[string]any{"type": "Person", "id": alice["id"]})
 		_ = forgedAliceURL
 		author := func(h int) any {
-			switch weighted(r, 6, 2, 1, 1) {
+			switch weighted(r, 6, 2, 1, 1, 1) {
+			case 4:
+				/* a stub pointing at the attacker's own URL, whose document claims alice's id */
+				return map[string]any{"id": forgedAliceURL, "type": "Person"}
 			case 0:
 				return g.refTo(h, aliceURL, alice)
 			case 1:
@@ -274,7 +301,9 @@ func genPubWorld(r *rand.Rand, n int, emit func(Op)) {
 			h := pick(r, []int{home, home, evil})
 			k := r.Intn(len(notes))
 			var actor any = g.refTo(h, aliceURL, alice)
-			switch weighted(r, 6, 2, 1, 1, 2) {
+			switch weighted(r, 6, 2, 1, 1, 2, 1) {
+			case 5:
+				actor = map[string]any{"id": forgedAliceURL}
 			case 4:
 				actor = g.refTo(h, bobURL, bob)
 			case 1:
@@ -293,6 +322,22 @@ func genPubWorld(r *rand.Rand, n int, emit func(Op)) {
 			}
 			au := g.serve(h, fmt.Sprintf("act%d", a), fields)
 			acts = append(acts, g.refTo(home, au, fields))
+		}
+		/* mallory's outbox: her own activity plus alice's (by reference): impostors there */
+		mact := g.serve(evil, "mact", map[string]any{"type": "Create", "id": g.url(evil, "mact"), "actor": malloryURL, "object": notes[0]})
+		mitems := []any{mact}
+		for _, a := range acts {
+			if s, ok := a.(string); ok && r.Intn(2) == 0 {
+				mitems = append(mitems, s)
+			}
+		}
+		moutbox := g.serve(evil, "moutbox", map[string]any{"type": "OrderedCollection", "id": g.url(evil, "moutbox"), "orderedItems": mitems})
+		mallory["outbox"] = moutbox
+		mallory["name"] = fmt.Sprintf("mallory@H%d", evil)
+		for k, rt := range g.routes {
+			if rt.(map[string]any)["path"] == "/{OP}/mallory" {
+				g.routes[k] = map[string]any{"h": evil, "path": "/{OP}/mallory", "resp": "HTTP/1.0 200 OK\r\nContent-Type: application/activity+json\r\n\r\n" + jsonDoc(mallory), "fault": ""}
+			}
 		}
 		outboxPage2 := map[string]any{"type": "OrderedCollectionPage", "orderedItems": acts[len(acts)/2:]}
 		outboxPage1 := map[string]any{"type": "OrderedCollectionPage", "orderedItems": acts[:len(acts)/2], "next": outboxPage2}
@@ -318,6 +363,13 @@ func genPubWorld(r *rand.Rand, n int, emit func(Op)) {
 				starts = append(starts, s)
 			}
 		}
-		emit(Op{"op": "pubworld", "routes": g.routes, "start": pick(r, starts), "harvest": 1 + r.Intn(8), "parents": r.Intn(5)})
+		before := []any{}
+		if r.Intn(2) == 0 {
+			for k := 0; k < 1+r.Intn(2); k++ {
+				before = append(before, pick(r, []string{aliceURL, malloryURL, rootURL, outboxURL, moutbox}))
+			}
+		}
+		starts = append(starts, malloryURL, malloryURL, moutbox)
+		emit(Op{"op": "pubworld", "routes": g.routes, "start": pick(r, starts), "before": before, "harvest": 1 + r.Intn(8), "parents": r.Intn(5)})
 	}
 }
